@@ -417,19 +417,20 @@ theorem no_return_values_rejected (g : G) (tg : Target) (pre : Beh) (o : OriginV
   have := (too_few_returns_rejected tg.sig none [] false (by simpa using h)).1
   simp [funcCall, firstReturnValues, this]
 
-/-- when.go:81/85 — **too few condition arguments**: typed cause `*erro.ArgsNotMatch(got, want)`; for methods the receiver
-    is not counted -/
-theorem too_few_args_rejected (s : Sig) (as : List V) (m : Bool)
-    (h : as.length < (inTypes m s).length) :
-    createWhen s (some as) none m = .error ⟨.argsNotMatch, [.argsNotMatch as.length (inTypes m s).length]⟩ := by
-  cases m with
-  | false =>
-    simp only [inTypes, Bool.false_eq_true, if_false] at h ⊢
-    simp [createWhen, checkParams, h, rej, bind, Except.bind, pure, Except.pure]
-  | true =>
-    simp only [inTypes, if_true, List.length_drop] at h ⊢
-    have h' : as.length + 1 < s.ins.length := by omega
-    simp [createWhen, checkParams, h', rej, bind, Except.bind, pure, Except.pure]
+/-- the number of condition arguments a first `When` must at least give (when.go:80-88): the parameters without the
+    receiver and without the variadic slot — `When(1)` on `f(int, ...int)` describes the legal call `f(1)` -/
+def requiredArgs (s : Sig) (m : Bool) : Nat :=
+  s.ins.length - (if m then 1 else 0) - (if s.variadic then 1 else 0)
+
+/-- when.go:89 — **too few condition arguments** (fewer than the FIXED parameters): typed cause `*erro.ArgsNotMatch(got, want)` -/
+theorem too_few_args_rejected (s : Sig) (as : List V) (m : Bool) (h : as.length < requiredArgs s m) :
+    createWhen s (some as) none m = .error ⟨.argsNotMatch, [.argsNotMatch as.length (requiredArgs s m)]⟩ := by
+  unfold requiredArgs at h ⊢
+  simp [createWhen, checkParams, h, rej, bind, Except.bind, pure, Except.pure]
+
+example : createWhen ⟨[⟨.str, 16, 31, false, 0⟩, ⟨.int, 8, 25, false, 0⟩, ⟨.slice, 24, 32, false, 0⟩], [], true, ⟨.int, 8, 25, false, 0⟩⟩
+    (some [.val ⟨.str, 16, 31, false, 0⟩]) none false = .error ⟨.argsNotMatch, [.argsNotMatch 1 2]⟩ :=
+  too_few_args_rejected _ _ _ (by decide)
 
 /-- **any wrong number of return values** (too few or too many) is rejected, whatever the values are -/
 theorem wrong_return_count_rejected (s : Sig) (vals : List V) (m : Bool) (h : vals.length ≠ s.outs.length) :
@@ -633,6 +634,7 @@ theorem seqStep_rejected (tg : Target) (isM : Bool) (repl : Nat) (ms ms' : MS) (
   cases st with
   | again => simp [seqStep, pure, Except.pure] at h
   | asFn f => simp [seqStep, pure, Except.pure] at h
+  | holder hm => simp [seqStep, pure, Except.pure] at h
   | lookup name found =>
     simp only [seqStep, Prod.mk.injEq] at h
     obtain ⟨rfl, _⟩ := h
@@ -702,10 +704,10 @@ theorem follow_up_when_count_rejected (s : Sig) (isM : Bool) (w : WS) (args : Op
   simp [whenStep, wWhen, newDefaultMatch, hv, toExpr, h, rStr, rej, bind, Except.bind]
 
 /-- when.go:123 — the same for `In(...)`: a group with the wrong number of conditions is rejected -/
-theorem follow_up_in_count_rejected (s : Sig) (isM : Bool) (w : WS) (g : List V) (h : Bool) (rest : List (List V × Bool))
+theorem follow_up_in_count_rejected (s : Sig) (isM : Bool) (w : WS) (g : List V) (h : Bool) (rest : List (InArg × Bool))
     (hv : s.variadic = false) (hlen : g.length ≠ (inTypes isM s).length) :
-    whenStep s isM w (.in_ ((g, h) :: rest)) = (w, .error ⟨.inCount, [.str]⟩) := by
-  simp [whenStep, wIn, hv, toExpr, hlen, rStr, rej]
+    whenStep s isM w (.in_ ((.list g, h) :: rest)) = (w, .error ⟨.inCount, [.str]⟩) := by
+  simp [whenStep, wIn, inParam, hv, toExpr, hlen, rStr, rej, pure, Except.pure]
 
 /-- **variadic targets**: a later `When` / `Matches` with fewer conditions than FIXED parameters is rejected
     (matcher.go:97-105: the type list keeps all fixed parameters, so `ToExpr`'s count test fails), however many fixed
@@ -719,9 +721,9 @@ theorem follow_up_variadic_too_few_rejected (s : Sig) (isM : Bool) (w : WS) (arg
 
 /-- and the same for `In(...)` on a variadic target (value.go:118) -/
 theorem follow_up_variadic_in_too_few_rejected (s : Sig) (isM : Bool) (w : WS) (g : List V) (h : Bool)
-    (rest : List (List V × Bool)) (hv : s.variadic = true) (hlen : g.length < (inTypes isM s).length - 1) :
-    whenStep s isM w (.in_ ((g, h) :: rest)) = (w, .error ⟨.inCount, [.str]⟩) := by
-  simp [whenStep, wIn, hv, toExprV, hlen, rStr, rej]
+    (rest : List (InArg × Bool)) (hv : s.variadic = true) (hlen : g.length < (inTypes isM s).length - 1) :
+    whenStep s isM w (.in_ ((.list g, h) :: rest)) = (w, .error ⟨.inCount, [.str]⟩) := by
+  simp [whenStep, wIn, inParam, hv, toExprV, hlen, rStr, rej, pure, Except.pure]
 
 example :
     let i : Ty := ⟨.int, 8, 25, false, 0⟩
@@ -767,24 +769,25 @@ theorem bad_apply_keeps_configuration (tg : Target) (isM : Bool) (repl : Nat) (m
 /-- interface mockers (iface.go:112-186): a rejected call never replaces the variable, never changes what the method
     dispatches to nor the `As` function, and — when no `When` existed yet — leaves the mocker exactly as it was, so the
     same ill-fitting stub is rejected again on every retry -/
-theorem ifaceSeqStep_rejected (m : Sig) (s s' : IS) (st : Step) (e : Rej) (h : ifaceSeqStep m s st = (s', .error e)) :
+theorem ifaceMainStep_rejected (m : Sig) (s s' : IS) (st : Step) (e : Rej) (h : ifaceMainStep m s st = (s', .error e)) :
     s'.set = s.set ∧ s'.imp = s.imp ∧ s'.fn = s.fn ∧ (s.when = none → s' = s) := by
   cases st with
-  | again => simp [ifaceSeqStep, pure, Except.pure] at h
-  | asFn f => simp [ifaceSeqStep, pure, Except.pure] at h
+  | again => simp [ifaceMainStep, pure, Except.pure] at h
+  | holder hm => simp [ifaceMainStep, pure, Except.pure] at h
+  | asFn f => simp [ifaceMainStep, pure, Except.pure] at h
   | lookup name found =>
-    simp only [ifaceSeqStep, Prod.mk.injEq] at h
+    simp only [ifaceMainStep, Prod.mk.injEq] at h
     obtain ⟨rfl, _⟩ := h
     exact ⟨rfl, rfl, rfl, fun _ => rfl⟩
   | apply cb =>
-    simp only [ifaceSeqStep] at h
+    simp only [ifaceMainStep] at h
     split at h
     · simp only [Prod.mk.injEq] at h
       obtain ⟨rfl, _⟩ := h
       exact ⟨rfl, rfl, rfl, fun _ => rfl⟩
     · simp [pure, Except.pure] at h
   | ret _ | when_ _ _ | returns _ | andReturn _ | in_ _ | matchPairs _ =>
-    simp only [ifaceSeqStep] at h
+    simp only [ifaceMainStep] at h
     cases hw : s.when with
     | some w =>
       simp only [hw] at h
@@ -803,6 +806,27 @@ theorem ifaceSeqStep_rejected (m : Sig) (s s' : IS) (st : Step) (e : Rej) (h : i
           exact ⟨rfl, rfl, rfl, fun _ => rfl⟩
         · simp [pure, Except.pure] at h
 
+/-- interface mockers (iface.go:112-186), also when the test goes through `Interface(&structHoldingTheVariable)`: a rejected
+    call never replaces the variable, never changes what the method dispatches to nor the `As` function, and — when no `When`
+    existed yet — leaves the mocker exactly as it was, so the same ill-fitting stub is rejected again on every retry -/
+theorem ifaceSeqStep_rejected (m : Sig) (s s' : IS) (st : Step) (e : Rej) (h : ifaceSeqStep m s st = (s', .error e)) :
+    s'.set = s.set ∧ s'.imp = s.imp ∧ s'.fn = s.fn ∧ (s.when = none → s' = s) := by
+  unfold ifaceSeqStep at h
+  split at h
+  · split at h
+    · simp [pure, Except.pure] at h
+    · simp only [Prod.mk.injEq] at h; obtain ⟨rfl, _⟩ := h; exact ⟨rfl, rfl, rfl, fun _ => rfl⟩
+  · split at h
+    · simp only [Prod.mk.injEq] at h; obtain ⟨rfl, _⟩ := h; exact ⟨rfl, rfl, rfl, fun _ => rfl⟩
+    · exact ifaceMainStep_rejected m s s' _ e h
+
+/-- **through the struct that holds the variable nothing is ever installed**: once the test configures via
+    `Interface(&holder)` (a pointer to a non-interface with the variable's address), every configuration call is
+    rejected or leaves the state untouched — the mock of the variable made earlier keeps answering -/
+theorem holder_never_installs (m : Sig) (s : IS) (st : Step) (hv : s.via = true) (hc : isConfigStep st = true) :
+    (ifaceSeqStep m s st).1 = s := by
+  cases st <;> simp [isConfigStep] at hc <;> simp [ifaceSeqStep, hv, isConfigStep]
+
 /-- hence retrying the same rejected first configuration of an interface method gives the same rejection -/
 theorem iface_retry_same (m : Sig) (s s' : IS) (st : Step) (e : Rej) (hw : s.when = none)
     (h : ifaceSeqStep m s st = (s', .error e)) : ifaceSeqStep m s' st = (s', .error e) := by
@@ -813,7 +837,7 @@ theorem iface_retry_same (m : Sig) (s s' : IS) (st : Step) (e : Rej) (hw : s.whe
 example :
     let i : Ty := ⟨.int, 8, 25, false, 0⟩
     let c : Ty := ⟨.ptr, 8, idMockerICtx, false, 0⟩
-    let s0 : IS := ⟨false, none, .none, ⟨[c, i, i], [i], false, i⟩⟩
+    let s0 : IS := ⟨false, none, .none, ⟨[c, i, i], [i], false, i⟩, false⟩
     let r1 := ifaceSeqStep ⟨[i], [i], false, i⟩ s0 (.ret (some [.val i]))
     r1.2 = .error ⟨.illegalParam, [.traceable, .illegalParam, .argsNotMatch 3 2]⟩ ∧
     (ifaceSeqStep ⟨[i], [i], false, i⟩ r1.1 (.ret (some [.val i]))).2 = r1.2 := by
@@ -989,6 +1013,7 @@ theorem seqStep_shape (tg : Target) (isM : Bool) (repl : Nat) (ms ms' : MS) (st 
   cases st with
   | again => simp [seqStep, pure, Except.pure] at h
   | asFn f => simp [seqStep, pure, Except.pure] at h
+  | holder hm => simp [seqStep, pure, Except.pure] at h
   | lookup name found =>
     simp only [seqStep, Prod.mk.injEq] at h
     exact good_lookupCheck _ _ _ h.2
@@ -1027,23 +1052,24 @@ theorem seqStep_shape (tg : Target) (isM : Bool) (repl : Nat) (ms ms' : MS) (st 
             exact applyByFunc_shape _ _ _ _ _ _ _ h1
           · simp [pure, Except.pure] at h
 
-theorem ifaceSeqStep_shape (m : Sig) (s s' : IS) (st : Step) (e : Rej)
-    (h : ifaceSeqStep m s st = (s', .error e)) : e.shape = true := by
+theorem ifaceMainStep_shape (m : Sig) (s s' : IS) (st : Step) (e : Rej)
+    (h : ifaceMainStep m s st = (s', .error e)) : e.shape = true := by
   cases st with
-  | again => simp [ifaceSeqStep, pure, Except.pure] at h
-  | asFn f => simp [ifaceSeqStep, pure, Except.pure] at h
+  | again => simp [ifaceMainStep, pure, Except.pure] at h
+  | asFn f => simp [ifaceMainStep, pure, Except.pure] at h
+  | holder hm => simp [ifaceMainStep, pure, Except.pure] at h
   | lookup name found =>
-    simp only [ifaceSeqStep, Prod.mk.injEq] at h
+    simp only [ifaceMainStep, Prod.mk.injEq] at h
     exact good_lookupCheck _ _ _ h.2
   | apply cb =>
-    simp only [ifaceSeqStep] at h
+    simp only [ifaceMainStep] at h
     split at h
     · rename_i e1 h1
       simp only [Prod.mk.injEq, Except.error.injEq] at h; obtain ⟨_, rfl⟩ := h
       exact good_applyIface _ _ _ _ h1
     · simp [pure, Except.pure] at h
   | ret _ | when_ _ _ | returns _ | andReturn _ | in_ _ | matchPairs _ =>
-    simp only [ifaceSeqStep] at h
+    simp only [ifaceMainStep] at h
     cases hw : s.when with
     | some w =>
       simp only [hw] at h
@@ -1070,6 +1096,84 @@ theorem ifaceSeqStep_shape (m : Sig) (s s' : IS) (st : Step) (e : Rej)
           exact good_applyIface _ _ _ _ h1
         · simp [pure, Except.pure] at h
 
+theorem good_holderStep (m fn : Sig) (st : Step) : Good (holderStep m fn st) := by
+  cases st with
+  | apply cb => unfold holderStep; exact good_applyIface _ _ _
+  | ret v => unfold holderStep; exact good_bind _ _ (good_createWS _ _ _ _ _) (fun _ => good_applyIface _ _ _)
+  | when_ a hit => unfold holderStep; exact good_bind _ _ (good_createWS _ _ _ _ _) (fun _ => good_applyIface _ _ _)
+  | returns gs =>
+    unfold holderStep
+    refine good_bind _ _ (good_createWS _ _ _ _ _) (fun w0 => ?_)
+    intro r h
+    split at h
+    · rename_i e1 h1; simp only [Except.error.injEq] at h; subst h; exact wReturns_shape _ _ _ _ _ _ h1
+    · exact good_applyIface _ _ _ r h
+  | andReturn _ | in_ _ | matchPairs _ | again | lookup _ _ | asFn _ | holder _ => unfold holderStep; exact good_pure _
+
+theorem ifaceSeqStep_shape (m : Sig) (s s' : IS) (st : Step) (e : Rej)
+    (h : ifaceSeqStep m s st = (s', .error e)) : e.shape = true := by
+  unfold ifaceSeqStep at h
+  split at h
+  · split at h
+    · simp [pure, Except.pure] at h
+    · simp only [Prod.mk.injEq, rStr, rej, Except.error.injEq] at h; obtain ⟨_, rfl⟩ := h; rfl
+  · split at h
+    · simp only [Prod.mk.injEq] at h; exact good_holderStep _ _ _ _ h.2
+    · exact ifaceMainStep_shape m s s' _ e h
+
+theorem fmApply_shape (g g' : G) (tg : Target) (cb : V) (repl : Nat) (e : Rej)
+    (h : fmApply g tg cb repl = (g', .error e)) : e.shape = true := by
+  unfold fmApply at h
+  split at h
+  · simp only [Prod.mk.injEq, rReflect, rej, Except.error.injEq] at h; obtain ⟨_, rfl⟩ := h; rfl
+  · split at h
+    · rename_i g1 e1 h1
+      simp only [Prod.mk.injEq, Except.error.injEq] at h; obtain ⟨_, rfl⟩ := h
+      have := replaceFunc_shape _ _ _ _ _ _ _ h1
+      exact shape_asPanicString _ this.1 (Or.inl this.2)
+    · simp [pure, Except.pure] at h
+
+theorem fmCall_shape (g : G) (tg : Target) (msig : Sig) (repl : Nat) (act : Action) (e : Rej)
+    (h : (fmCall g tg msig repl act).2.1 = .error e) : e.shape = true := by
+  cases act with
+  | apply cb =>
+    simp only [fmCall] at h
+    cases h1 : fmApply g tg cb repl with
+    | mk g1 r =>
+      cases r with
+      | error e1 => simp only [h1, Except.error.injEq] at h; subst h; exact fmApply_shape _ _ _ _ _ _ h1
+      | ok u => simp [h1, pure, Except.pure] at h
+  | ret vals =>
+    simp only [fmCall] at h
+    cases h0 : createWhen msig none (firstReturnValues vals) false with
+    | error e0 => simp only [h0, Except.error.injEq] at h; subst h; exact good_createWhen _ _ _ _ _ h0
+    | ok w =>
+      simp only [h0] at h
+      cases h1 : fmApply g tg (.fn msig) repl with
+      | mk g1 r =>
+        cases r with
+        | error e1 => simp only [h1, Except.error.injEq] at h; subst h; exact fmApply_shape _ _ _ _ _ _ h1
+        | ok u => simp [h1, pure, Except.pure] at h
+  | when_ args ret =>
+    simp only [fmCall] at h
+    cases h0 : createWhen msig args none false with
+    | error e0 => simp only [h0, Except.error.injEq] at h; subst h; exact good_createWhen _ _ _ _ _ h0
+    | ok w =>
+      simp only [h0] at h
+      cases h1 : fmApply g tg (.fn msig) repl with
+      | mk g1 r =>
+        cases r with
+        | error e1 => simp only [h1, Except.error.injEq] at h; subst h; exact fmApply_shape _ _ _ _ _ _ h1
+        | ok u =>
+          simp only [h1] at h
+          cases ret with
+          | none => simp [pure, Except.pure] at h
+          | some vals =>
+            simp only at h
+            cases h2 : whenReturn w msig vals with
+            | error e2 => simp only [h2, Except.error.injEq] at h; subst h; exact good_whenReturn _ _ _ _ h2
+            | ok w2 => simp [h2, pure, Except.pure] at h
+
 /-- every way a configuration call of the model can be rejected -/
 inductive Produced : Rej → Prop
   | func (g : G) (tg : Target) (pre : Beh) (o : OriginV) (repl : Nat) (act : Action) (e : Rej) :
@@ -1083,6 +1187,10 @@ inductive Produced : Rej → Prop
   | seq (tg : Target) (isM : Bool) (repl : Nat) (ms ms' : MS) (st : Step) (e : Rej) :
       seqStep tg isM repl ms st = (ms', .error e) → Produced e
   | ifaceSeq (m : Sig) (s s' : IS) (st : Step) (e : Rej) : ifaceSeqStep m s st = (s', .error e) → Produced e
+  | direct (g g' : G) (tg : Target) (cb : V) (o : OriginV) (repl : Nat) (e : Rej) :      -- Func(&fnVar).Apply, ExportFunc(..).As(..).Apply
+      applyByFunc g tg cb o repl = (g', .error e) → Produced e
+  | fm (g : G) (tg : Target) (msig : Sig) (repl : Nat) (act : Action) (e : Rej) :        -- Func(obj.M).<action>
+      (fmCall g tg msig repl act).2.1 = .error e → Produced e
 
 theorem produced_shape (r : Rej) (h : Produced r) : r.shape = true := by
   cases h with
@@ -1093,6 +1201,8 @@ theorem produced_shape (r : Rej) (h : Produced r) : r.shape = true := by
   | iface v name found m act e b h => exact ifaceCall_shape _ _ _ _ _ _ _ h
   | seq tg isM repl ms ms' st e h => exact seqStep_shape _ _ _ _ _ _ _ h
   | ifaceSeq m s s' st e h => exact ifaceSeqStep_shape _ _ _ _ _ h
+  | direct g g' tg cb o repl e h => exact applyByFunc_shape _ _ _ _ _ _ _ h
+  | fm g tg msig repl act e h => exact fmCall_shape _ _ _ _ _ _ h
 
 /-! ### the Go side: what the probe (and erro.Cause) does with the error value -/
 
@@ -1157,5 +1267,183 @@ example :
     Produced r ∧ walk r.chain = some .illegalParam := by
   refine ⟨Produced.iface .ptrIface "A" true ⟨[⟨.int, 8, 25, false, 0⟩], [⟨.int, 8, 25, false, 0⟩], false, default⟩
     (.apply (.fn ⟨[⟨.ptr, 8, idMockerICtx, false, 0⟩, ⟨.int, 8, 25, false, 0⟩, ⟨.int, 8, 25, false, 0⟩], [⟨.int, 8, 25, false, 0⟩], false, default⟩)) _ false rfl, rfl⟩
+
+/-! ## H. Round-5 additions: CauseBy, the image of an unmocked target, interface kinds for every action, misfitting As() -/
+
+/-- erro/traceable.go:26 `CauseBy`, transcribed as `causeByDepth`: standing at a node of depth `d`, the loop recognises the node
+    of depth `k` **iff** `k` is one of the leading `*TraceableError` nodes from here on (`d ≤ k < d + leadingTraceable chain`):
+    every Traceable node of the walk is identified, nothing below the first non-Traceable node and nothing else is. -/
+theorem causeBy_spec : ∀ (e : GoErr) (d k : Nat),
+    causeByDepth e d k = true ↔ (d ≤ k ∧ k - d < leadingTraceable (probeChain e))
+  | .leaf t, d, k => by
+    cases t <;> simp [causeByDepth, probeChain, leadingTraceable] <;> omega
+  | .wrap t c, d, k => by
+    have ih := causeBy_spec c (d + 1) k
+    cases t <;> simp [causeByDepth, probeChain, exposesCause, leadingTraceable, ih] <;> omega
+
+example : causeByDepth (.wrap .traceable (.wrap .illegalParam (.leaf (.argsNotMatch 3 2)))) 0 0 = true ∧
+    causeByDepth (.wrap .traceable (.wrap .illegalParam (.leaf (.argsNotMatch 3 2)))) 0 1 = false := by decide
+
+/-- "executable image unchanged" stated on `mocked`, not on the registry: if the target's entry is pristine, a rejected
+    `Apply`/`Return`/`When` leaves the whole image exactly as it was — whatever the registry holds (e.g. the `applied` entry a
+    `Reset` leaves behind: guard.go:36 then only re-writes the pristine bytes) -/
+theorem rejected_unmocked_image_unchanged (g g' : G) (tg : Target) (cb : V) (o : OriginV) (repl : Nat) (e : Rej)
+    (h : applyByFunc g tg cb o repl = (g', .error e)) (hm : mocked g tg.id = false) : g'.text = g.text ∧ g'.tramp = g.tramp := by
+  have ⟨hn, hor⟩ := applyByFunc_rejected _ _ _ _ _ _ _ h
+  refine ⟨?_, hn.tramp⟩
+  funext x
+  by_cases hx : x = tg.id
+  · subst hx
+    have h1 := hn.not_mocked _ hm
+    simp only [mocked, Option.isSome_eq_false_iff, Option.isNone_iff_eq_none] at h1 hm
+    rw [h1, hm]
+  · -- other targets: only `unpatchValue`/`upd` at `tg.id` ever touch the text
+    cases hor with
+    | inl hg => rw [hg]
+    | inr _ =>
+      unfold applyByFunc at h
+      cases h1 : checkTrampolineFunc o with
+      | error e1 => simp only [h1, Prod.mk.injEq] at h; rw [← h.1]
+      | ok tr =>
+        simp only [h1] at h
+        cases h2 : patchValueChecks (.fn tg.sig) cb with
+        | error e2 => simp only [h2, Prod.mk.injEq] at h; rw [← h.1]
+        | ok u =>
+          simp only [h2] at h
+          cases h3 : replaceFunc g tg.id tg.fsize repl tr with
+          | mk g1 r =>
+            cases r with
+            | ok u2 => simp [h3, pure, Except.pure] at h
+            | error e3 =>
+              simp only [h3, Prod.mk.injEq] at h
+              rw [← h.1]
+              -- text of g1 at x ≠ tg.id
+              unfold replaceFunc at h3
+              have key : ∀ g0 : G, g0 = (if (g.patches tg.id).isSome then unpatchValue g tg.id else g) → g0.text x = g.text x := by
+                intro g0 hg0
+                by_cases hp : (g.patches tg.id).isSome
+                · simp only [hp, if_true] at hg0; subst hg0
+                  unfold unpatchValue
+                  split
+                  · rfl
+                  · split <;> simp [upd, hx]
+                · simp only [hp] at hg0; subst hg0; rfl
+              generalize hg1 : (if (g.patches tg.id).isSome then unpatchValue g tg.id else g) = g0 at h3
+              have hk := key g0 hg1.symm
+              simp only at h3
+              (repeat' (split at h3)) <;> first
+                | (simp only [Prod.mk.injEq] at h3; rw [← h3.1]; exact hk)
+                | (simp [pure, Except.pure] at h3)
+
+/-- **a non-pointer or non-interface handed to `Interface` is rejected for EVERY action** — `Apply`, `As(fn).Return`,
+    `As(fn).When[.Return]` — and the variable is never replaced -/
+theorem iface_kind_rejected_any_action (v : IfaceVar) (hv : v ≠ .ptrIface) (name : String) (found : Bool) (m : Sig)
+    (act : IfaceAction) : ∃ e, ifaceCall v name found m act = (.error e, false) := by
+  have happ : ∀ cb, ∃ e, applyIface v m cb = .error e := by
+    intro cb
+    have ⟨e, he⟩ := iface_kind_rejected v hv "x" true m cb
+    unfold ifaceCall at he
+    cases h0 : ifaceMethod v "x" true with
+    | error e0 =>
+      -- the method lookup already failed for this shape; applyIface itself still rejects
+      unfold applyIface
+      cases cb with
+      | nil => exact ⟨_, rfl⟩
+      | val t => exact ⟨_, rfl⟩
+      | expr => exact ⟨_, rfl⟩
+      | fn c =>
+        simp only
+        cases hc : c.ins with
+        | nil => exact ⟨_, rfl⟩
+        | cons first rest =>
+          simp only
+          split
+          · exact ⟨_, rfl⟩
+          · cases v with
+            | ptrIface => exact absurd rfl hv
+            | value k hm => exact ⟨_, rfl⟩
+            | nilValue => exact ⟨_, rfl⟩
+            | ptrTo k hm => exact ⟨_, rfl⟩
+    | ok u =>
+      simp only [h0] at he
+      cases h1 : applyIface v m cb with
+      | error e1 => exact ⟨e1, rfl⟩
+      | ok u1 => simp [h1, pure, Except.pure] at he
+  unfold ifaceCall
+  cases h0 : ifaceMethod v name found with
+  | error e0 => exact ⟨e0, rfl⟩
+  | ok u =>
+    simp only
+    cases act with
+    | apply cb =>
+      have ⟨e, he⟩ := happ cb
+      exact ⟨e, by simp [he]⟩
+    | asRet fn vals =>
+      simp only
+      cases h1 : createWhen fn none (firstReturnValues vals) true with
+      | error e1 => exact ⟨e1, rfl⟩
+      | ok w => have ⟨e, he⟩ := happ (.fn fn); exact ⟨e, by simp [he]⟩
+    | asWhen fn args ret =>
+      simp only
+      cases h1 : createWhen fn args none true with
+      | error e1 => exact ⟨e1, rfl⟩
+      | ok w => have ⟨e, he⟩ := happ (.fn fn); exact ⟨e, by simp [he]⟩
+
+/-- **an `As(fn)` stub that does not fit the interface method** (wrong parameter count after `*IContext`, wrong result count,
+    a slot of another size) makes the first `Return` / `When` / `Returns` on that mocker fail, and the mocker, the variable
+    and what the method dispatches to are exactly as before -/
+theorem iface_as_misfit_rejected (m : Sig) (s : IS) (st : Step) (hw : s.when = none) (hvia : s.via = false)
+    (hst : (∃ v, st = .ret v) ∨ (∃ a hit, st = .when_ a hit) ∨ (∃ gs, st = .returns gs))
+    (hbad : ¬ (s.fn.ins.length = m.ins.length + 1 ∧ m.ins.map (·.size) = (s.fn.ins.drop 1).map (·.size) ∧
+               m.outs.map (·.size) = s.fn.outs.map (·.size))) :
+    ∃ e, ifaceSeqStep m s st = (s, .error e) := by
+  have happ : ∃ e, applyIface .ptrIface m (.fn s.fn) = .error e := by
+    cases h : applyIface .ptrIface m (.fn s.fn) with
+    | error e => exact ⟨e, rfl⟩
+    | ok u =>
+      exfalso
+      unfold applyIface at h
+      simp only at h
+      cases hc : s.fn.ins with
+      | nil => simp [hc, rRuntime, rej] at h
+      | cons first rest =>
+        simp only [hc] at h
+        split at h
+        · simp [rej] at h
+        · exact hbad ((ifaceSignature_ok_iff m s.fn).1 h)
+  obtain ⟨e, he⟩ := happ
+  rcases hst with ⟨v, rfl⟩ | ⟨a, hit, rfl⟩ | ⟨gs, rfl⟩
+  all_goals
+    simp only [ifaceSeqStep, hvia, Bool.false_and, Bool.false_eq_true, if_false, ifaceMainStep, hw]
+    split
+    · exact ⟨_, rfl⟩
+    · simp only [he]; exact ⟨_, rfl⟩
+
+/-! ### the cause-chain clause at full strength, and what is proved of it -/
+
+/-- a node that is an error VALUE of a type of package erro (not a panic string, not a reflect/runtime panic, not a wrapper) -/
+def isTypedError : ErrT → Bool
+  | .argsNotMatch _ _ | .returnsNotMatch _ _ | .illegalParamType => true
+  | _ => false
+
+/-- THE CLAUSE AS THE PROPERTY STATES IT: every rejected configuration call reports an error whose `erro.Cause` walk ends at a
+    typed cause.  NOT true of the code as it is — `Findings/C13F.lean` refutes it on the model at two witnesses, recorded as
+    known findings C13-K2 (string / reflect panics carry no error value) and C13-K3 (the walk stops at `*IllegalParam`). -/
+def CauseClauseFull : Prop := ∀ r, Produced r → ∃ e, walk r.chain = some e ∧ isTypedError e = true
+
+/-- the part that holds: whenever the rejection's class is one of the typed ones (`*ArgsNotMatch`, `*ReturnsNotMatch`,
+    `*IllegalParamType` — too few condition arguments / return values on the first call, a non-`*IContext` first parameter,
+    a pointer to a non-interface), the walk does end at that typed error.  Missing for the full clause: the classes of
+    `isStrCls`, reflect/runtime panics, the interface-signature class (walk ends at `*IllegalParam`) and the by-name lookup. -/
+theorem cause_clause_partial (r : Rej) (h : Produced r)
+    (hc : r.cls = .argsNotMatch ∨ r.cls = .returnsNotMatch ∨ r.cls = .illegalParamType) :
+    ∃ e, walk r.chain = some e ∧ isTypedError e = true := by
+  have ⟨_, e, hw, _, hty, _⟩ := shape_sound r (produced_shape r h)
+  refine ⟨e, hw, ?_⟩
+  rcases hc with hc | hc | hc <;> rw [hc] at hty <;> cases e <;> simp [typedEnd, isStrCls, isPatchCls] at hty <;> rfl
+
+example : ∃ r, Produced r ∧ r.cls = .returnsNotMatch :=
+  ⟨⟨.returnsNotMatch, [.returnsNotMatch 0 1]⟩,
+   Produced.func G.init { id := 0, sig := ⟨[], [⟨.int, 8, 25, false, 0⟩], false, default⟩ } .orig .none 1 (.ret none) _ rfl, rfl⟩
 
 end C13
